@@ -691,7 +691,17 @@ def run(ctx, report):
     from ..core import Report as _Report
     from . import c09 as _c09
     sub = _Report('C09', ctx.tier, ctx.root)
-    _c09.run(ctx, sub)
+    try:
+        _c09.run(ctx, sub)
+    except AnalysisError as e_:
+        # the shared sub-run builds the form model of the lifter, which stops on a table value it does not know (e.g. a new sd key).  When C10's own rules have already
+        # reported a violation (the KeyError such a value causes in the decoder is theirs to report), that report stands; otherwise the run is undecided.
+        from ..core import load_known as _lk
+        known_ = set((k_['rule'], k_['key']) for k_ in _lk() if k_['property'] == 'C10' and k_.get('status', 'known') == 'known')
+        if not any((f_.rule, f_.key) not in known_ for r_ in report.rules for f_ in r_.findings):
+            raise
+        R11.note('the shared C09.D1 sub-run stopped (%s); C10 has reported a violation of its own, which stands' % e_)
+        R11.instances = max(R11.instances, R11.floor)
     for r_ in sub.rules:
         if r_.id == 'C09.D1':
             R11.instances += r_.instances
